@@ -104,13 +104,20 @@ def check_entry_matrix(case, ctx):
     ctx.event('cond_' + cond)
     if case.get('drop_mask'):
         ctx.event('mask_None')
+    if case.get('masked_error'):
+        ctx.event('error_masked_' + case['masked_error'])
+    if case.get('coverage_mask'):
+        ctx.event('coverage_mask')
     trig = cond != 'clean' or rep == 'masked'
     for name in names:
         with warnings.catch_warnings():
             warnings.simplefilter('ignore')
             X = R.make_context(sc, rep if rep != 'masked' else 'f64', cond,
                                masked_array_mask=(rep == 'masked'),
-                               drop_mask=case.get('drop_mask', False))
+                               drop_mask=case.get('drop_mask', False),
+                               masked_error=case.get('masked_error'),
+                               coverage_mask=case.get('coverage_mask', False),
+                               mask_view=case.get('mask_view', False))
             if X.segm is None:
                 ctx.event('no_segmentation')
                 return
@@ -163,7 +170,10 @@ def matrix_cases(draw):
     return {'scene': draw(scenes()),
             'rep': draw(st.sampled_from(C10_REPS)),
             'condition': draw(st.sampled_from(CONDITIONS)),
-            'drop_mask': draw(st.booleans()), 'entries': None}
+            'drop_mask': draw(st.booleans()), 'entries': None,
+            'masked_error': draw(st.sampled_from([None, None, 'mask', 'nan'])),
+            'coverage_mask': draw(st.booleans()),
+            'mask_view': draw(st.booleans())}
 
 
 SUBCHECKS = [
